@@ -123,7 +123,16 @@ def check_C12(report, tier, seed):
     S.suite_lifecycle(report, tier, seed, "C12")
 
 
-CHECKS = {"C08": check_C08, "C12": check_C12, "C19": check_C19, "C01": check_C01, "C02": check_C02, "C03": check_C03, "C04": check_C04, "C05": check_C05, "C06": check_C06,
+def check_C20(report, tier, seed):
+    import suites_aws as S
+    report.rule = ("custom-auth configurations: authorizer names over [\\w=,@-] and hostile alphabets (&,=,%,+,space,?,non-ASCII), signatures as raw base64 "
+                   "(with +,/,=), pre-encoded (upper/lower hex) and out-of-domain strings, token keys/values, usernames (with '?'), binary passwords; user connect "
+                   "options over every field with client id none/empty/set; client options over version x drain x retries x other fields; distinct by request")
+    gv.theorem_obligations(report, "GV/Props/C20.lean", "GV.Props.C20", audit=True)
+    S.suite_aws(report, tier, seed, "C20")
+
+
+CHECKS = {"C20": check_C20, "C08": check_C08, "C12": check_C12, "C19": check_C19, "C01": check_C01, "C02": check_C02, "C03": check_C03, "C04": check_C04, "C05": check_C05, "C06": check_C06,
           "C07": check_C07, "C09": check_C09, "C10": check_C10, "C11": check_C11, "C14": check_C14, "C15": check_C15,
           "C16": check_C16, "C17": check_C17, "C18": check_C18}
 
